@@ -165,7 +165,7 @@ def _sym_type(v, key):
     return v.str(key, 1, minlen=1)
 
 
-def build_document(v, root_kind, vary_names=True, vary_ids=True):
+def build_document(v, root_kind, vary_names=True, vary_ids=True, full=None):
     """Symbolic document; returns (root, objs)."""
     import odml
     doc = odml.Document() if root_kind == "doc" else None
@@ -174,7 +174,9 @@ def build_document(v, root_kind, vary_names=True, vary_ids=True):
         doc.append(s0)
     objs = ([doc] if doc is not None else []) + [s0]
     secs = [s0]
-    if v.tier == "quick":
+    if full is None:
+        full = v.tier != "quick"
+    if not full:
         # quick: at most two Sections (siblings, or parent and child) and one Property
         struct = v.sharded_choice("structure", 12 if vary_names else 6)
         s0_named = struct // 6
@@ -208,7 +210,7 @@ def build_document(v, root_kind, vary_names=True, vary_ids=True):
         objs.append(prop)
     # names and types, written directly: duplicates and empty names must be reported, not refused
     for i, sec in enumerate(secs if vary_names else []):
-        if i == 0 and v.tier == "quick":
+        if i == 0 and not full:
             symbolic_name = bool(s0_named)
         else:
             symbolic_name = v.bool("sname%d.sym" % i)
@@ -224,10 +226,16 @@ def build_document(v, root_kind, vary_names=True, vary_ids=True):
             prop._name = prop.id
     # ids: public API route to duplicates
     idobjs = [o for o in objs] if vary_ids else []
-    for i, obj in enumerate(idobjs[1:], 1):
-        k = v.choice("idlike%d" % i, 1 + i) if v.bool("dupid%d" % i) else 0
-        if k > 0:
-            obj.new_id(idobjs[k - 1].id)
+    if len(idobjs) > 1:
+        # up to two objects take the id of an earlier object (the second one later in the list than the first)
+        ndup = v.choice("ndup", 3)
+        low = 1
+        for j in range(ndup):
+            if low >= len(idobjs):
+                break
+            i = low + v.choice("dupobj%d" % j, len(idobjs) - low)
+            idobjs[i].new_id(idobjs[v.choice("dupof%d" % j, i)].id)
+            low = i + 1
     return (doc if doc is not None else s0), objs, secs, props
 
 
@@ -329,13 +337,13 @@ def document_names_ob(v):
     compare(v, root, objs)
 
 
-@obligation("C08", "document_ids", shards=6, budget={"quick": 300, "thorough": 900},
+@obligation("C08", "document_ids", shards=12, budget={"quick": 300, "thorough": 900},
             expect=["issues", "errors"],
-            bounds="Document root; every object keeps its fresh id or takes the id of any earlier object (Document included) "
-                   "through new_id; names and types fixed")
+            bounds="Document root with up to four Sections on two levels (s0 > s2, s3; s1) and up to two Properties in any of them; up to two objects take "
+                   "the id of any earlier object (Document included) through new_id; names and types fixed")
 def document_ids_ob(v):
     """Duplicate id errors 200/201 == reference (first holder in traversal order keeps the id)."""
-    root, objs, secs, props = build_document(v, "doc", vary_names=False)
+    root, objs, secs, props = build_document(v, "doc", vary_names=False, full=True)
     compare(v, root, objs)
 
 
@@ -385,9 +393,10 @@ def values_consistency_ob(v):
         prop.values = [text, v.pick("ptext2", ["a", "1"])] if v.bool("ptwo") else [text]
         prop._dtype = v.pick("pdtype", ["string", "int", "float", "date", "boolean"])
     else:
-        prop.dtype = "2-tuple"
-        prop.values = ["(a;b)", "(c;d)"]
-        prop._dtype = v.pick("tdtype", ["2-tuple", "3-tuple", "1-tuple"])
+        width = v.pick("width", [2, 10, 12])
+        prop.dtype = "%d-tuple" % width
+        prop.values = ["(" + ";".join("m%d" % k for k in range(width)) + ")", "(" + ";".join("n%d" % k for k in range(width)) + ")"]
+        prop._dtype = v.pick("tdtype", ["%d-tuple" % width, "%d-tuple" % (width + 1), "1-tuple"])
     compare(v, doc, [doc, s0, prop])
 
 
